@@ -1344,6 +1344,13 @@ class Controller:
 
         # Say that the connection is pending
         self._send_hci_command_status(hci.HCI_COMMAND_STATUS_PENDING, command.op_code)
+        if self.link.find_classic_controller(command.bd_addr) is None:
+            # Nobody answers the page
+            del self.classic_connections[command.bd_addr]
+            self.on_classic_connection_complete(
+                command.bd_addr, hci.HCI_ErrorCode.PAGE_TIMEOUT_ERROR
+            )
+            return None
         future = self.send_lmp_packet(command.bd_addr, lmp.LmpHostConnectionReq())
 
         def on_response(future: asyncio.Future[int]) -> None:
